@@ -757,6 +757,23 @@ def run_bind(c):
     obs['calls_by_P'] = len(calls) - len(obs['calls_by_Q'])
     obs['Q_before_again'] = canon_rec(Qb.parse(probe))
     obs['calls_total_after_Q'] = len(calls) - obs['calls_by_P']
+    if what in ('variable', 'function'):
+        # P's own outcomes - the name as registered and in its other spellings - before and after ANOTHER parser R registers
+        # things under those other spellings: what R does is R's business
+        spell = sorted(set([name, name.upper(), name.lower(), name.swapcase(), name.capitalize()]))
+        forms = [(sp if what == 'variable' else sp + '(1,2)') for sp in spell] + [sp + '*2' for sp in spell if what == 'variable']
+        n0 = len(calls)
+        obs['P_spell_before'] = [[f, canon_rec(P.parse(f))] for f in forms]
+        R = hotxlfp.Parser()
+        for i, sp in enumerate(spell):
+            if sp != name:
+                if what == 'variable':
+                    R.set_variable(sp, 'R%d' % i)
+                else:
+                    R.set_function(sp, lambda *a, i=i: 'R%d' % i)
+        R.parse(forms[0])
+        obs['P_spell_after'] = [[f, canon_rec(P.parse(f))] for f in forms]
+        del calls[n0:]
     # through the public accessors too
     leak = []
     for who, q in (('Q created before', Qb), ('Q created after', Qa)):
@@ -794,6 +811,10 @@ def judge_bind(c, obs):
         return 'a %s listener of parser P was called by an evaluation on parser Q (%r)' % (what, obs['calls_by_Q'])
     if obs['leak']:
         return '%s %r set on P is visible on Q: %s' % (what, c['name'], '; '.join(obs['leak']))
+    for (f, b), (_f, a) in zip(obs.get('P_spell_before', []), obs.get('P_spell_after', [])):
+        if a != b:
+            return ('%s %r set on parser P: P evaluates %r to %r; after ANOTHER parser registered its own %ss under other spellings of '
+                    'that name, P evaluates it to %r' % (what, c['name'], f, b, what, a))
     # the statement's words: Q gives #NAME? / blank
     if what in ('variable', 'function', 'callVariable') and unset != [canon(None), canon('#NAME?')]:
         return '%r on an untouched parser gives %r, not #NAME?' % (obs['probe'], unset)
@@ -1900,10 +1921,95 @@ def cases(rng, ctx):
     for i in range((N_SHEETS_THOROUGH if thorough else N_SHEETS_QUICK) * scale):
         out.append(gen_sheet(rng, thorough, sweep=(thorough and i % 4 == 0) or (not thorough and i % 25 == 0),
                              ref='formula' if i % 5 == 0 else 'sheet'))
+    # ---- (c') line-level interleavings: every line boundary of the first evaluation (quick: a seeded third of them)
+    pairs = list(LINE_PAIRS) if thorough else rng.sample(LINE_PAIRS, 8)
+    for a, b in pairs:
+        if rng.random() < 0.5:
+            a, b = b, a
+        d = {'kind': 'linesched', 'formulas': [a, b]}
+        if not thorough:
+            d['stride'], d['phase'] = 3, rng.randrange(3)
+        out.append(d)
+    out.append({'kind': 'linesched', 'formulas': ['YEAR("2021-03-01")', 'YEAR("2020-01-15")']})
     # ---- (c) free-running
     out.append({'kind': 'stress', 'threads': 4, 'n': 300 * (3 if thorough else 1), 'seed': rng.randrange(1 << 30),
                 'pool': [f for f in tpool if f]})
     return out
+
+
+# =========================================================================== (c') line-level interleaving of two threads
+
+LINE_PAIRS = [('YEAR("2021-03-01")', 'YEAR("2020-01-15")'), ('COUNTIF({1,2,3},">1")', 'COUNTIF({1,2,3},">2")'),
+              ('SUMIF({1,2,3},"<3")', 'SUMIF({1,2,3},"<2")'), ('ROMAN(1999)', 'ROMAN(1000)'),
+              ('DAYS("2021-03-01","2020-01-15")', 'DAYS("2020-02-01","2019-01-15")'), ('UPPER("abc")&LEFT("xyz",2)', 'UPPER("def")&LEFT("uvw",1)'),
+              ('va*2+A1', 'vb*3+B2'), ('MATCH("b*",{"ab","bc"},0)', 'MATCH("a*",{"ab","bc"},0)'), ('DEC2HEX(255)', 'DEC2HEX(4095)'),
+              ('MONTH("2021-03-01")+DAY("2021-03-01")', 'MONTH("2020-11-15")+DAY("2020-11-15")'), ('"2021-03-01"+1', '"2020-01-15"+1'),
+              ('SUM(1,2)+CB(3)', 'SUM(4,5)+CB(6)'), ('IF(1<2,"a","b")&"x"', 'IF(2<1,"a","b")&"y"'), ('ROUND(2.567,1)', 'ROUND(3.14159,3)'),
+              ('TEXTJOIN(",",TRUE,"a","b")', 'TEXTJOIN(";",TRUE,"c","d")'), ('AVERAGEIF({1,2,3},">1")', 'AVERAGEIF({4,5,6},">4")')]
+
+
+def run_linesched(c):
+    """thread 1 evaluates formulas[0] on its parser and is held, in turn, at every LINE boundary inside the library's own files
+    while the main thread evaluates formulas[1] completely on another parser (which has evaluated it once before); both outcomes
+    against the outcomes alone"""
+    import threading
+    f1, f2 = c['formulas']
+    T1, T2 = thread_parser(0), thread_parser(1)
+    alone1, alone2 = canon_rec(T1.parse(f1)), canon_rec(T2.parse(f2))
+    root = os.path.join(common.REPO, 'hotxlfp') + os.sep
+
+    def traced(k):
+        n = [0]
+        hit, go = threading.Event(), threading.Event()
+        out = {}
+
+        def local(frame, event, arg):
+            if event == 'line':
+                n[0] += 1
+                if n[0] == k:
+                    hit.set()
+                    go.wait(60)
+            return local
+
+        def tracer(frame, event, arg):
+            return local if frame.f_code.co_filename.startswith(root) else None
+
+        def body():
+            sys.settrace(tracer)
+            try:
+                out['rec'] = canon_rec(T1.parse(f1))
+            finally:
+                sys.settrace(None)
+                hit.set()
+        t = threading.Thread(target=body)
+        t.start()
+        hit.wait(60)
+        rec2 = None
+        if t.is_alive() and k > 0 and n[0] >= k:
+            rec2 = canon_rec(T2.parse(f2))
+        go.set()
+        t.join(60)
+        return n[0], out.get('rec'), rec2
+    total, rec, _ = traced(0)
+    findings = []
+    if rec != alone1:
+        findings.append('%r evaluated a second time on the same parser gives %r, the first time %r' % (f1, rec, alone1))
+    ks = list(range(1, total + 1))
+    if c.get('stride', 1) > 1:
+        ks = ks[c.get('phase', 0) % c['stride']::c['stride']]
+    done = 0
+    for k in ks:
+        _n, rec1, rec2 = traced(k)
+        done += 1
+        if rec2 is None:
+            continue
+        for who, f, got, want in (('thread 1', f1, rec1, alone1), ('thread 2', f2, rec2, alone2)):
+            if got != want:
+                findings.append('two threads on distinct parsers: thread 1 evaluates %r and is held at the %d. of its %d line boundaries inside '
+                                'the library while thread 2 evaluates %r completely; %s gets %r, alone it gets %r' % (f1, k, total, f2, who, got, want))
+        if findings:
+            break
+    return {'findings': findings, 'lines': total, 'runs': done}
 
 
 _impl_cache = {}
@@ -1946,6 +2052,8 @@ def _run(c):
             res = run_stress(c)
         elif kind == 'cold':
             res = run_cold(c)
+        elif kind == 'linesched':
+            res = run_linesched(c)
         else:
             raise ValueError(kind)
     finally:
@@ -2156,6 +2264,8 @@ def oracle(c, impl_ans):
                     return ('the first evaluations of a fresh process, %r on distinct parsers in threads started together: %r gives %r, '
                             'alone it gives %r' % (c['formulas'], f, run[i], impl_ans['want'][i]))
         return None
+    if kind == 'linesched':
+        return impl_ans['findings'][0] if impl_ans['findings'] else None
     if kind == 'stress':
         if impl_ans['bad']:
             i, k, f, got, want = impl_ans['bad'][0]
@@ -2190,6 +2300,8 @@ def weight(c, impl_ans):
                 max(0, len([r for r in runs if 'ops' in r]) - 1))
     if c['kind'] == 'stress':
         return (impl_ans['evaluations'], 0, 0)
+    if c['kind'] == 'linesched':
+        return (2 * impl_ans['runs'] + 3, max(0, impl_ans['runs'] - 1), 0)
     if c['kind'] == 'sheet':
         runs = impl_ans['runs']
         return (sum(r['nframes'] for r in runs) + impl_ans['ref_evals'], max(0, len([r for r in runs if r['nested'] > 0]) - 1),
